@@ -1271,15 +1271,29 @@ pub fn mem_churn_scenario(opts: ExecOpts, cycle_choices: &'static [u32]) -> Boxe
         // (lag, how the long-lived receiver receives, how the long-lived sender sends): "keeps
         // operating" ranges over every entry point (round-5 seed C17-5: a receiver that only ever
         // calls recv_view and always finds a value never looked at the epoch signal)
-        (prop_oneof![1 => Just(0u8), 1 => 8u8..48], 0u8..8, 0u8..3),
+        // (.., rounds of receiver-side churn before the last receiver leaves in the receivers-gone
+        // variant - with the kept sender idle meanwhile, so that an epoch is open and unacknowledged
+        // when the no-reader flag is raised; round-6 seed C17-8 -, the concurrent traffic thread also
+        // clones and drops a sender every cycle, so that the two threads meet in the manager's
+        // critical sections; round-6 seed C17-7)
+        (prop_oneof![1 => Just(0u8), 1 => 8u8..48], 0u8..8, 0u8..3, prop_oneof![1 => Just(0u8), 2 => 4u8..=30], any::<bool>()),
     )
-        .prop_map(move |(q, ci, rounds, early_drop, second, traffic, leftover, sched, rx_gone, (lag, how, send_how))| {
+        .prop_map(move |(q, ci, rounds, early_drop, second, traffic, leftover, sched, rx_gone, (lag, how, send_how, pre_churn, traffic_churns))| {
             let c = cycle_choices[ci];
             let bcast = q.flavour == Flavour::Broadcast;
             if rx_gone {
                 // the surviving sender keeps sending (and being refused as Disconnected) while
                 // senders are cloned and dropped: memory must still not grow
-                let mut main = vec![Op::TrySend { tx: 0 }, Op::UnsubRx { rx: 0 }];
+                let mut main = vec![Op::TrySend { tx: 0 }];
+                if pre_churn > 0 {
+                    let round = if bcast && pre_churn % 2 == 0 {
+                        Op::WithNewStream { rx: 0, unsub: false }
+                    } else {
+                        Op::WithCloneRx { rx: 0, unsub: pre_churn % 3 == 0 }
+                    };
+                    main.push(Op::Repeat { times: pre_churn as u32, body: vec![round], sample_after: vec![] });
+                }
+                main.push(Op::UnsubRx { rx: 0 });
                 let mut body: Vec<Op> = Vec::new();
                 for (k, _) in rounds.iter().enumerate() {
                     body.push(Op::WithCloneTx { tx: 0, sends: (k % 2) as u8 });
@@ -1299,6 +1313,13 @@ pub fn mem_churn_scenario(opts: ExecOpts, cycle_choices: &'static [u32]) -> Boxe
             let traffic = traffic && c <= 1000;
             // blocking and in-place receives need a stream nobody else takes values from
             let how = if traffic && matches!(how, 3 | 4 | 5) { 0 } else { how };
+            // a blocking receive must find its value: with a lagging sender that adds a second value
+            // per cycle a clone made by a churn round may take the stream's value first
+            let how = match how {
+                3 if lag > 0 => 0,
+                5 if lag > 0 => 4,
+                h => h,
+            };
             let view = matches!(how, 4 | 5);
             // a single-consumer receiver cannot be cloned or add streams: on a broadcast queue the
             // churn rounds then work from a second stream
@@ -1322,7 +1343,11 @@ pub fn mem_churn_scenario(opts: ExecOpts, cycle_choices: &'static [u32]) -> Boxe
                         times: c * 4,
                         // the yield makes the two threads alternate: a thread that is descheduled
                         // for a long time does not "keep operating" and may legitimately delay frees
-                        body: vec![Op::TrySend { tx: 0 }, Op::TryRecv { rx: 0 }, Op::Yield],
+                        body: if traffic_churns {
+                            vec![Op::TrySend { tx: 0 }, Op::TryRecv { rx: 0 }, Op::WithCloneTx { tx: 0, sends: 0 }, Op::Yield]
+                        } else {
+                            vec![Op::TrySend { tx: 0 }, Op::TryRecv { rx: 0 }, Op::Yield]
+                        },
                         sample_after: vec![],
                     }],
                     ret: false,
